@@ -87,4 +87,6 @@ W_ReparseAfterEdit == ~(\E a, b \in 1..Len(objs) : a # b /\ objs[a].c = objs[b].
 W_EditWhileTwoHeld == ~(\E a, b \in 1..Len(objs) : a # b /\ objs[a].c = objs[b].c /\ objs[a].via = objs[b].via
                           /\ \E f \in DOMAIN objs[a].val : objs[a].val[f] > objs[b].at)
 W_TwoCerts == ~(\E a, b \in 1..Len(objs) : objs[a].c # objs[b].c)
+\* (one behaviour that passes through all three situations: 5 steps, 3 results held)
+W_All == W_ReparseAfterEdit \/ W_EditWhileTwoHeld \/ W_TwoCerts
 =============================================================================
